@@ -243,9 +243,20 @@ class Ctx:
             elif r2 == "sat":
                 r = z3.sat
                 model = {"note": "cvc5 reported sat; no model extracted"}
+        xcheck = None
+        if r == z3.unsat and backend == "z3" and getattr(self.run, "cross_check", 0) and self.run.xcount < self.run.cross_check:
+            # thorough tier: second opinion on a sample of z3's `unsat` answers
+            self.run.xcount += 1
+            smt = self.solver.to_smt2().replace("(check-sat)", "")
+            r2 = cvc5_check(smt, timeout_s=10, strings="Seq" in smt or "String" in smt)
+            xcheck = r2
         self.solver.pop()
         dt = time.time() - t0
         status = "discharged" if r == z3.unsat else ("failed" if r == z3.sat else "unknown")
+        if xcheck == "sat":
+            status, backend = "solver-disagreement", "z3:unsat/cvc5:sat"
+        elif xcheck is not None:
+            backend = "z3+cvc5:%s" % xcheck
         self.run.record(
             ObligationResult(
                 name, status, backend, dt, model=model, path=list(self.decisions),
